@@ -20,8 +20,8 @@ TEXTS = {
                      '10-symbol alphabet up to length 4 (5), str_to_lines / escape_str_for_quote directly up to length 5 (6).',
                 note=_ENC + 'assumed: re.Pattern.split returns >= 1 pieces whose concatenation is the input; escaped_len >= 0; the '
                      'evaluator that calls str_to_lines (floor of 10 columns) and escaping are decided by the bounded stand-in only.'),
-    'C03': dict(category='other', engine='bounded', technique='frame obligations decided by effect analysis over the ast of the real source (one obligation per mutation site, module-level mutable binding, global rebinding, memoising decorator, id() call, settings flow); ' + _BOUNDED,
-                text='Proved on the source (frame): width / ribbon_width / ribbon_frac are arguments of the layout call only, PrettyContext has no width field, the three entry points pass each setting through one pipeline - so the document cannot depend on width or ribbon. Bounded: ast.dump of the output equal across 77-117 configurations for the C01 corpus, commented values, stdlib '
+    'C03': dict(category='other', engine='pyvc+bounded', technique=_PYVC + '; frame obligations decided by effect analysis over the ast of the real source (one obligation per mutation site, module-level mutable binding, global rebinding, memoising decorator, id() call, settings flow); ' + _BOUNDED,
+                text='Proved for all inputs (family context): python_to_sdocs hands width and ribbon_width to the layout call only - the printers receive a context built from indent, depth, max_seq_len and sort_dict_keys alone (postcondition over the uninterpreted pretty_python_value / layout_smart). Proved on the source (frame): width / ribbon_width / ribbon_frac are arguments of the layout call only, PrettyContext has no width field, the three entry points pass each setting through one pipeline - so the document cannot depend on width or ribbon. Bounded: ast.dump of the output equal across 77-117 configurations for the C01 corpus, commented values, stdlib '
                      'instances, subclass instances and a pretty_call user type; every line indented by a multiple of indent.',
                 note='CPython ast as oracle; bounds in the evidence.'),
     'C04': dict(category='proof', engine='pyvc+bounded', technique=_PYVC + '; bounded reference matcher on top',
@@ -76,12 +76,12 @@ TEXTS = {
                 text='Bounded: all placements of <= 2 comments/trailing comments on all trees of <= 4 nodes x representative texts, and 59 attach '
                      'sites x all texts over a 10-character alphabet up to length 3 (4): same AST as uncommented, no fallback, words preserved in order.',
                 note='CPython ast/tokenize as oracle.'),
-    'C10': dict(category='other', engine='bounded', technique=_BOUNDED,
-                text='Bounded: 3777 (9503) container values up to three levels x N in 1..7 and None x 3 widths: eval equals the reference '
+    'C10': dict(category='other', engine='pyvc+bounded', technique=_PYVC + '; ' + _BOUNDED,
+                text='Proved for all inputs (family context, 53 obligations): PrettyContext.__init__, _replace for EVERY subset of fields (symbolic keyword map), nested_call (depth_left - 1, inf stays inf, everything else unchanged), use_multiline_strategy, assoc; python_to_sdocs builds the initial context from exactly the given indent / depth (None = unlimited) / max_seq_len / sort_dict_keys and a new visited set. The truncation logic of the printers is bounded only. Bounded: 3777 (9503) container values up to three levels x N in 1..7 and None x 3 widths: eval equals the reference '
                      'truncation, exactly one exact notice per over-long container, None equals a huge limit.',
                 note='CPython eval/tokenize as oracle.'),
-    'C11': dict(category='other', engine='bounded', technique=_BOUNDED,
-                text='Bounded: 15k (116k) container trees with unique leaves, height <= 4 (5), d in 0..height+2 and None: leaf visibility, '
+    'C11': dict(category='other', engine='pyvc+bounded', technique=_PYVC + '; ' + _BOUNDED,
+                text='Proved for all inputs (family context, 53 obligations): PrettyContext.__init__, _replace for EVERY subset of fields (symbolic keyword map), nested_call (depth_left - 1, inf stays inf, everything else unchanged), use_multiline_strategy, assoc; python_to_sdocs builds the initial context from exactly the given indent / depth (None = unlimited) / max_seq_len / sort_dict_keys and a new visited set. The depth tests of the printers are bounded only. Bounded: 15k (116k) container trees with unique leaves, height <= 4 (5), d in 0..height+2 and None: leaf visibility, '
                      'placeholder shapes, identity above the cut and beyond the height. Two known findings (atoms below the cut, str key at the cut).',
                 note='CPython ast as oracle.'),
     'C12': dict(category='other', engine='pyvc+bounded', technique=_PYVC + ' for termination measures; ' + _BOUNDED + ' for the growth law',
@@ -91,7 +91,8 @@ TEXTS = {
                 note=_ENC + 'a contract cannot state a complexity class: the growth law is monitored only.'),
     'C13': dict(category='other', engine='pyvc+bounded', technique=_PYVC + '; ' + _BOUNDED,
                 text='Proved for a symbolic printer, value and exception class (59 obligations): _run_pretty restores the visited set on every '
-                     'normal and exceptional exit, returns the marker iff the id is on the path, set.remove never fails. Bounded-exhaustive: '
+                     'normal and exceptional exit, returns the marker iff the id is on the path, set.remove never fails; derived contexts share the '
+                     'visited set, python_to_sdocs starts every call with a new one (family context). Bounded-exhaustive: '
                      'every rooted graph of list/dict/tuple nodes up to 3 (4) nodes up to isomorphism, random up to 10 nodes, failing user '
                      'printers: markers exactly at back edges, shared nodes in full, no residue; plus exhaustive PrettyContext contracts.',
                 note=_ENC + 'assumed: printers restore visited themselves (frame), id() injective on live objects; termination of the '
@@ -141,7 +142,8 @@ TEXTS = {
                      'text(v, merged settings); pprint appends exactly that text followed by `end` (if truthy) to the given stream or sys.stdout '
                      'and touches no other stream (whole-heap postcondition); cpprint renders the same sdocs with the style; set_default_config '
                      'changes exactly the settings it is given (all 64 paths), never indent, and returns the new defaults; get_default_config '
-                     'reports them; pretty_repr of a registered type is pformat with every setting defaulted. Declarations (key set of '
+                     'reports them; pretty_repr of a registered type is pformat with every setting defaulted; python_to_sdocs (family context) builds the '
+                     'initial PrettyContext from exactly the merged settings (depth None = unlimited) and a new visited set. Declarations (key set of '
                      '_default_config, signature of python_to_sdocs, the imported names, the single sentinel instance) are re-checked against '
                      'the source on every run. The PrettyPrinter shim stores and forwards *args / **kwargs unchanged (opaque argument packs; binding them '
                      'to the parameters is Python call semantics, not modelled). Bounded stand-in: 64 '
